@@ -59,6 +59,12 @@ fn normalise_addr(s: &str) -> String {
 }
 
 fn main() {
+    // never outlive the check that started this process by much: if the parent was killed while a
+    // program hangs (memory corruption in a broken build, say), leave after ten minutes
+    std::thread::spawn(|| {
+        std::thread::sleep(std::time::Duration::from_secs(600));
+        std::process::exit(97);
+    });
     let args: Vec<String> = std::env::args().collect();
     let mut input = String::new();
     std::fs::File::open(&args[1]).expect("batch file").read_to_string(&mut input).unwrap();
